@@ -819,6 +819,7 @@ type specInfo struct {
 	retT      types.Type
 	retS      Sort
 	probed    bool
+	probedDone bool
 }
 
 var specInfos = map[*SpecFunc]*specInfo{}
@@ -919,6 +920,7 @@ func (x *Exec) probeSpec(env *Env, sf *SpecFunc, si *specInfo) {
 	}
 	si.probed = true
 	if sf.Body == nil {
+		si.probedDone = true
 		return
 	}
 	pe := &Env{x: x, st: env.st, old: env.old, vars: map[string]SV{}, pkg: x.pkgByPath[sf.Pkg], allocOld: env.allocOld, reads: map[string]Sort{}, fuelSet: true, fuel: 0}
@@ -933,6 +935,7 @@ func (x *Exec) probeSpec(env *Env, sf *SpecFunc, si *specInfo) {
 	for _, c := range si.comps {
 		si.compSorts = append(si.compSorts, pe.reads[c])
 	}
+	si.probedDone = true
 	// nested recursive spec functions contribute their components through their own applications
 }
 
@@ -1024,6 +1027,10 @@ func (x *Exec) applySpec(env *Env, sf *SpecFunc, args []SV) SV {
 		return evalBody(env)
 	}
 	// uninterpreted application (+ definitional instance while fuel lasts)
+	if env.reads != nil && !si.probedDone {
+		// inside the probe of this (or an enclosing) recursive definition: only the heap reads matter
+		return SV{T: Var("probe_app_"+sf.Name, si.retS), Typ: si.retT}
+	}
 	x.probeSpec(env, sf, si)
 	var ats []*Term
 	asorts := append([]Sort{}, si.paramS...)
